@@ -70,7 +70,9 @@ def run_component_case(ctx, res, case, lines, post):
     vectorized = case['vectorized'] and not case.get('failing')    # a vectorised model that raises aborts the whole batch
     comp, rec = cc.build_component(f, nin, ['y0'], case['alpha_lim'], case['beta_lim'], case['surr_lim'],
                                    case['domains'], case['norms_in'], None, case['kpl'],
-                                   vectorized=vectorized, cost=cost_fn(case['cost']), fail=fail)
+                                   vectorized=vectorized, fail=fail,
+                                   # a failing model reports no cost here (known finding F14 of C14 is about that combination)
+                                   cost=None if case.get('failing') else cost_fn(case['cost']))
     na, nd = len(case['alpha_lim']), nin
     names = [v.name for v in comp.inputs]
     in_vars = list(comp.inputs)
